@@ -163,12 +163,18 @@ type txctx struct {
 	active   string
 	hasAct   bool
 	lastMove string // last cursor movement op kind (for classification)
+	// direction of each cursor's last movement ('f' after First/Seek/Next,
+	// 'b' after Last/Prev): the merged iterators behind a cursor keep their
+	// secondary iterator on the far side of the current key, so two cursors
+	// on the same key that arrived from different directions do not have the
+	// same future and must not be merged by the state hashing
+	cdir map[string]byte
 	ws       map[string]string
 	pruned   int
 }
 
 func newTxctx(s *sess, writable bool, tx database.Tx, rtx *refdb.Tx) *txctx {
-	return &txctx{s: s, writable: writable, tx: tx, rtx: rtx, cur: map[string]database.Cursor{}, rcur: map[string]*refdb.Cursor{}, ws: map[string]string{}}
+	return &txctx{s: s, writable: writable, tx: tx, rtx: rtx, cur: map[string]database.Cursor{}, rcur: map[string]*refdb.Cursor{}, ws: map[string]string{}, cdir: map[string]byte{}}
 }
 
 func dirBase(p string) (string, string) {
@@ -194,8 +200,8 @@ func (c *txctx) commitKey() string { return c.rtx.State().Dump() + "|ws:" + c.ws
 // stateKey additionally includes the cursors.
 func (c *txctx) stateKey() string {
 	var cs []string
-	for _, rc := range c.rcur {
-		cs = append(cs, rc.StateKey())
+	for p, rc := range c.rcur {
+		cs = append(cs, rc.StateKey()+"/"+string(c.cdir[p]))
 	}
 	sort.Strings(cs)
 	act := "-"
@@ -210,6 +216,7 @@ func (c *txctx) dropCursorsBelow(path string) {
 		if p == path || strings.HasPrefix(p, path+"/") {
 			delete(c.rcur, p)
 			delete(c.cur, p)
+			delete(c.cdir, p)
 			if c.hasAct && c.active == p {
 				c.hasAct = false
 			}
@@ -344,6 +351,10 @@ func (c *txctx) apply1(kind string, arg func(int) string) (bool, *disc) {
 			got, want, name = ic.Seek([]byte(arg(2))), rc.Seek([]byte(arg(2))), "Cursor.Seek"
 		}
 		c.lastMove = kind
+		c.cdir[path] = 'f'
+		if kind == "cl" {
+			c.cdir[path] = 'b'
+		}
 		if !rc.Predictable() {
 			// Seek beyond the last key/value pair with nested buckets present:
 			// result not specified by interface.go, nothing compared
@@ -370,6 +381,10 @@ func (c *txctx) apply1(kind string, arg func(int) string) (bool, *disc) {
 		}
 		prev := c.lastMove
 		c.lastMove = kind
+		c.cdir[c.active] = 'f'
+		if kind == "cp" {
+			c.cdir[c.active] = 'b'
+		}
 		d := c.cmpCursor(name, ic, rc, got, want)
 		if d != nil {
 			// classify by what preceded the move (stable sub-class for known findings)
